@@ -80,7 +80,7 @@ def _gen_from(rnd):
         if a:
             acls.append(["G%d" % i, a])
     return {"vendor": vendor, "rules": rules, "old": RL.plain(old), "new": RL.plain(new), "acls": acls,
-            "acl_indents": [rnd.choice([0, 0, 4, 8]) for _ in acls]}
+            "acl_indents": [rnd.choice([0, 0, 4, 8]) for _ in acls], "acl_comments": rnd.choice([0, 0, 1, 2, 3])}
 
 
 @st.composite
@@ -127,6 +127,11 @@ def _path_covered(p, actx, rev, exitw):
     return True
 
 
+def _nocomment(text):
+    """the combined ACL text without comment lines (they are tagged like any line, and skipped by the parser)"""
+    return "".join(l + "\n" for l in text.split("\n") if l and not l.strip().startswith("#"))
+
+
 def check(case):
     from annet.annlib.rbparser.acl import compile_acl_text
     from vf.model import sut
@@ -139,8 +144,8 @@ def check(case):
     rb = sut.make_rb(RL.rule_text(rules), vendor)
     named = [(n, a) for n, a in case["acls"]]
     # merged through the production path (RunGeneratorResult.acl_text), each generator's literal with its own base indentation
-    atext = sut.production_acl_text(named, case.get("acl_indents"))
-    if atext != RA.combined_text(named):
+    atext = sut.production_acl_text(named, case.get("acl_indents"), case.get("acl_comments", 0))
+    if _nocomment(atext) != RA.combined_text(named):
         raise Violation("acl-merge-text", "the combined ACL text differs from 'every line of every generator, dedented, tagged with its "
                         "generator name'", {"got": atext, "expected": RA.combined_text(named)})
     acl = compile_acl_text(atext, vendor)
